@@ -109,8 +109,10 @@ let () =
                       (* optional 19th field = 1: tree with fixes/C07-final-alignment-truthful.patch *)
                       fi_align_fix = (Array.length a > 18 && ii 18 = 1) } in
            (* optional 18th field = 1: tree with fixes/C07-a64-refuse-unrealisable-frames.patch: such frames are refused by finalize *)
-           if Array.length a > 17 && ii 17 = 1 && arch = Frame.A64 && not (Frame.a64_realisable fi) then
-             print_endline "F 0 I 0 0 0 0 0 0 0 0 0 0 0 0 0 0 0 0 0 0 L ?3"
+           (* round 5: the accept/refuse decision is the model's finalize_error (kTooLarge 9 always - a53b13c; kInvalidState 3 with the flag) *)
+           let err = Z.to_int (z_of_cz (Frame.finalize_error fi)) in
+           if err = 9 || (err <> 0 && Array.length a > 17 && ii 17 = 1) then
+             Printf.printf "F 0 I 0 0 0 0 0 0 0 0 0 0 0 0 0 0 0 0 0 0 L ?%d\n" err
            else
            let o = Frame.finalize fi in
            let b2 b = if b then "1" else "0" in
